@@ -159,7 +159,7 @@ func isOpaqueType(t types.Type) bool {
 	}
 	switch n.Obj().Pkg().Path() + "." + n.Obj().Name() {
 	case "regexp.Regexp", "reflect.Value", "reflect.rtype", "sync.Mutex", "sync.RWMutex", "sync.WaitGroup", "sync.Once",
-		"github.com/fxamacker/cbor/v2.Encoder", "github.com/fxamacker/cbor/v2.Decoder", "time.Time", "time.Timer":
+		"github.com/fxamacker/cbor/v2.Encoder", "github.com/fxamacker/cbor/v2.Decoder", "time.Time", "time.Timer", "bufio.Writer":
 		return true
 	}
 	return false
